@@ -329,24 +329,34 @@ def run_group_uncached(g, tier, root_wd, keep=False):
 # checks do not repeat the same proof.  Any change to /repo/src or to /verif changes the key: a check always decides
 # the CURRENT working tree.  Undecided results are never cached; a failed group is cached together with its verifier trace.  VERIF_NOCACHE=1 switches this off.
 # Heavy groups (mem_gb >= 20) additionally take one of VERIF_HEAVY (default 3) machine-wide slots.
-_TREE_HASH = None
+_TREE_HASH = {}
 
 
-def tree_hash():
-    global _TREE_HASH
-    if _TREE_HASH is None:
-        h = hashlib.sha256()
-        files = []
-        for root in (SRC, os.path.join(VERIF, "contracts"), os.path.join(VERIF, "harness"), os.path.join(VERIF, "lib")):
-            for dp, dn, fn in os.walk(root):
-                dn[:] = [d for d in dn if d != "__pycache__"]
-                files += [os.path.join(dp, f) for f in fn if not f.endswith(".pyc")]
-        for f in sorted(files):
-            h.update(f.encode() + b"\0")
-            with open(f, "rb") as fh:
-                h.update(hashlib.sha256(fh.read()).digest())
-        _TREE_HASH = h.hexdigest()
-    return _TREE_HASH
+def _hash_files(files):
+    h = hashlib.sha256()
+    for f in sorted(files):
+        h.update(f.encode() + b"\0")
+        with open(f, "rb") as fh:
+            h.update(hashlib.sha256(fh.read()).digest())
+    return h.hexdigest()
+
+
+def _walk(root):
+    out = []
+    for dp, dn, fn in os.walk(root):
+        dn[:] = [d for d in dn if d != "__pycache__"]
+        out += [os.path.join(dp, f) for f in fn if not f.endswith(".pyc")]
+    return out
+
+
+def tree_hash(g):
+    """hash of everything a group result depends on: /repo/src, /verif/contracts, the driver lib/vf.py, the group's harness"""
+    if "base" not in _TREE_HASH:
+        _TREE_HASH["base"] = _hash_files(_walk(SRC) + _walk(os.path.join(VERIF, "contracts")) + [os.path.join(VERIF, "lib", "vf.py")])
+    hp = os.path.join(VERIF, "harness", g["harness"])
+    if hp not in _TREE_HASH:
+        _TREE_HASH[hp] = _hash_files([hp]) if os.path.exists(hp) else "missing"
+    return _TREE_HASH["base"] + _TREE_HASH[hp]
 
 
 def run_group(g, tier, root_wd, keep=False):
@@ -355,7 +365,7 @@ def run_group(g, tier, root_wd, keep=False):
         return run_group_uncached(g, tier, root_wd, keep)
     cdir = os.path.join(VERIF, "build", "cache")
     os.makedirs(cdir, exist_ok=True)
-    key = hashlib.sha256((tree_hash() + json.dumps(g, sort_keys=True, default=str) + tier).encode()).hexdigest()[:32]
+    key = hashlib.sha256((tree_hash(g) + json.dumps({k: v for k, v in g.items() if k not in ("props", "cost")}, sort_keys=True, default=str) + (tier if ("defs_quick" in g or "defs_thorough" in g) else "")).encode()).hexdigest()[:32]
     cfile = os.path.join(cdir, key + ".json")
     with open(os.path.join(cdir, key + ".lock"), "w") as lk:
         fcntl.flock(lk, fcntl.LOCK_EX)
